@@ -181,6 +181,29 @@ def getSwapFees(pool_config, amount, forPositiveImpact, swapPricingType):
     return SwapFees(amount - amount * factor, amount * factor)
 '''
 
+# the whitelisted tokens are a SET (TokenInfo hashes by name): registering a token twice does not double its weight
+REF_GMX_INIT = '''
+def __init__(self, market_info, tokens=None, data=None, data_path="./data"):
+    super().__init__(market_info=market_info, data=data, data_path=data_path)
+    self.glp_amount = Decimal("0.00")
+    self.glp_decimal = 18
+    self.reward = Decimal("0.00")
+    self.mint_burn_fee_basis_points = 25
+    self.tax_basis_points = 60
+    self._tokens = set()
+    if tokens is not None:
+        self.add_token(tokens)
+    else:
+        self.add_token([])
+'''
+REF_GMX_ADD_TOKEN = '''
+def add_token(self, token_info):
+    if not isinstance(token_info, list):
+        token_info = [token_info]
+    for t in token_info:
+        self._tokens.add(t)
+'''
+
 # ---- GMX v2 price impact (SwapPricingUtils.sol / PricingUtils.sol) -------------------------------------------------
 # impact(diff, factor, exponent) = diff^exponent * factor
 # same side:   sign(+ iff next diff < initial diff) * | impact(initial) - impact(next) |        (one factor)
@@ -439,6 +462,9 @@ def run(model, tier="quick"):
                   FX, opaque=["getOutputAmount"])
     formula_check(res, model, V + "get_market_balance", REF_V2_BALANCE, "v2 value = shares * pool value / supply",
                   opaque=["getTokenAmountsFromGM"])
+    effects_check(res, model, G + "__init__", REF_GMX_INIT, "v1 market state: fee constants 25 / 60 bp, token registry is a set",
+                  ["add_token", "__init__"])
+    effects_check(res, model, G + "add_token", REF_GMX_ADD_TOKEN, "token registry: set semantics (a token counts once)", ["add"])
     SP, PU = "SwapPriceUtils.", "PricingUtils."
     formula_check(res, model, PU + "applyImpactFactor", REF_IMPACT_FACTOR, "impact(diff) = diff^exponent * factor")
     formula_check(res, model, PU + "getPriceImpactUsdForSameSideRebalance", REF_IMPACT_SAME,
